@@ -28,7 +28,8 @@ ASSUMPTIONS = [
 FLOORS = {'extractions': 300, 'focus_evaluations': 1000, 'depth2_focus': 50,
           'range_focus': 30, 'name_focus': 10, 'after_evaluation': 50,
           'with_changes': 100, 'changes_by_name': 5,
-          'derived_originals': 100, 'frozen_formula_models': 50}
+          'derived_originals': 100, 'frozen_formula_models': 50,
+          'wide_range_evaluations': 40, 'changes_before_extraction': 100}
 ANCHOR_FUNCS = {'xlcalculator/model.py': ['ModelCompiler.extract']}
 TIMEOUT = {'quick': 600, 'thorough': 3000}
 
@@ -45,9 +46,73 @@ def snapshot(model):
             sorted(model.ranges))
 
 
+def run_wide(ctx):
+    """ranges that cross from single-letter into double-letter columns
+    (X..AC, B..AB): column order is not the order of the letters"""
+    from xlcalculator import Evaluator, ModelCompiler
+    rng = ctx.rng
+    for trial in range(6):
+        c1 = rng.choice([2, 20, 24, 25, 26])
+        c2 = rng.choice([27, 28, 29, 30, 53])
+        rows = rng.randint(1, 3)
+        cells, vals = {}, {}
+        for r in range(1, rows + 1):
+            for c in range(c1, c2 + 1):
+                a = f'Data!{ref.col_letters(c)}{r}'
+                if rng.random() < 0.2 and c > c1:
+                    # a formula member whose precedent lies outside the range
+                    cells[a] = '=Data!A9*2'
+                    vals[a] = None
+                else:
+                    vals[a] = cells[a] = rng.randint(1, 50)
+        cells['Data!A9'] = 7
+        rg = f'Data!{ref.col_letters(c1)}1:{ref.col_letters(c2)}{rows}'
+        cells['Sheet1!A1'] = f'=SUM({rg})'
+        cells['Sheet1!A2'] = f'=Sheet1!A1+COUNT({rg})'
+        try:
+            original = subject.compile_dict(cells)
+            extracted = ModelCompiler.extract(original, ['Sheet1!A2'])
+        except Exception as e:  # noqa
+            ctx.fail(f'extract over the wide range {rg} raised {e!r}',
+                     {'cells': cells}, monitor='extract-raises',
+                     group='wide-raises')
+            continue
+        ev_o, ev_x = Evaluator(original), Evaluator(extracted)
+        a9 = 7
+        for step in range(3):
+            if step:
+                a = rng.choice([k for k, v in vals.items() if v is not None])
+                v = rng.randint(100, 200)
+                ev_o.set_cell_value(a, v)
+                ev_x.set_cell_value(a, v)
+                vals[a] = v
+                if step == 2:
+                    a9 = rng.randint(2, 9)
+                    ev_o.set_cell_value('Data!A9', a9)
+                    ev_x.set_cell_value('Data!A9', a9)
+            total = sum(v if v is not None else a9 * 2 for v in vals.values())
+            want = ('value', ('num', float(total + len(vals))))
+            go = subject.outcome_of(lambda: ev_o.evaluate('Sheet1!A2'))
+            gx = subject.outcome_of(lambda: ev_x.evaluate('Sheet1!A2'))
+            ctx.event('focus_evaluations')
+            ctx.event('wide_range_evaluations')
+            ctx.case(('wide', c1, c2, rows, step))
+            if gx != go or go != want:
+                ctx.fail(f'focus Sheet1!A2 over {rg}: extracted model -> '
+                         f'{gx}, original -> {go}, reference {want[1]} '
+                         f'(step {step})',
+                         {'cells': cells, 'range': rg, 'extracted': gx,
+                          'original': go, 'reference': want[1],
+                          'extracted_cells': sorted(extracted.cells)[:80]},
+                         monitor='same-values', group='wide-range')
+                break
+
+
 def run(ctx):
     from xlcalculator import Evaluator, ModelCompiler
     rng = ctx.rng
+    if ctx.shard in (0, 4, 8, 12) or ctx.tier == 'thorough':
+        run_wide(ctx)
     thorough = ctx.tier == 'thorough'
     out = os.path.join(bootstrap.VERIF, 'out', 'c13')
     os.makedirs(out, exist_ok=True)
@@ -163,6 +228,15 @@ def run(ctx):
                     frozen = fk
                     ctx.event('frozen_formula_models')
             ev_o = Evaluator(original)
+            # inputs may have been re-assigned BEFORE the extraction as well
+            pre = []
+            if rng.random() < 0.4:
+                for _ in range(rng.randint(1, 2)):
+                    pk = rng.choice(m.inputs)
+                    pv = rng.choice([21, 22, 23, 0.75, -4])
+                    ev_o.set_cell_value(build.addr(pk), pv)
+                    pre.append((pk, pv))
+                ctx.event('changes_before_extraction')
             if after_eval:
                 ctx.event('after_evaluation')
                 for k in m.formulas:
@@ -250,6 +324,8 @@ def run(ctx):
                 ctx.event('with_changes')
             ev_x = Evaluator(extracted)
             wbc = wb.copy()
+            for pk, pv in pre:
+                wbc.cells[pk] = pv
             if frozen is not None:
                 wbc.cells[frozen] = 4242
             rounds = [[]] + [changes]
@@ -289,7 +365,9 @@ def run(ctx):
                         ctx.fail(
                             f'focus {f}: extracted model -> {gx}, original '
                             f'-> {go}, reference {want} (focus set '
-                            f'{focus_addrs}, changes {chg}, original '
+                            f'{focus_addrs}, changes before extraction '
+                            f'{[(build.addr(k_), v_) for k_, v_ in pre]}, '
+                            f'changes {chg}, original '
                             f'evaluated before extraction: {after_eval}, '
                             f'{prov} model'
                             + (f', {build.addr(frozen)} holds 4242 with its '
